@@ -444,3 +444,92 @@ Definition find_case_ok (c : find_case) : bool :=
   res_matches (list_eqb presult_eqb)
     (find (table_prims (fc_table c)) (table_store (fc_mht c) (fc_mdt c)) (known_of (fc_known c)) (fc_mh c))
     (fc_obs c).
+
+(* ------------------------------------------------------------------ *)
+(* The HTTP dhstore client (find/client/dhstore_http.go): what the server is asked.
+
+   FindMultihash(dhmh) GETs  <base>/encrypted/multihash/<base58 of dhmh>,
+   FindMetadata(hvk)   GETs  <base>/metadata/<base58 of hvk>;
+   200 -> the JSON body's EncryptedMultihashResults / EncryptedMetadata, 404 -> nothing and
+   no error, anything else (other status, unreadable or undecodable body) -> an error: the
+   [store] of this model is that interface ([Ok []] = 404, [Err] = every failure), so the
+   only behaviour the HTTP layer adds is the request path, a function of the key alone. *)
+
+Definition b58_alphabet : bytes := str_bytes "123456789ABCDEFGHJKLMNPQRSTUVWXYZabcdefghijkmnopqrstuvwxyz"%string.
+
+Fixpoint be_value (b : bytes) (acc : N) : N :=
+  match b with [] => acc | x :: r => be_value r (acc * 256 + x) end.
+
+Fixpoint b58_digits (fuel : nat) (n : N) (acc : bytes) : bytes :=
+  match fuel with
+  | O => acc
+  | S f => if n =? 0 then acc else b58_digits f (n / 58) (nth (N.to_nat (n mod 58)) b58_alphabet 0 :: acc)
+  end.
+
+Fixpoint leading_zeros (b : bytes) : nat :=
+  match b with 0 :: r => S (leading_zeros r) | _ => 0%nat end.
+
+(* mr-tron/base58 Encode (Bitcoin alphabet): a '1' per leading zero byte, then the digits *)
+Definition b58 (b : bytes) : bytes :=
+  repeat 49 (leading_zeros b) ++ b58_digits (2 * length b) (be_value b 0) [].
+
+Inductive query := QMh (k : bytes) | QMd (k : bytes).
+
+Definition mh_path_prefix : bytes := str_bytes "/encrypted/multihash/"%string.
+Definition md_path_prefix : bytes := str_bytes "/metadata/"%string.
+
+Definition request_path (q : query) : bytes :=
+  match q with
+  | QMh k => mh_path_prefix ++ b58 k
+  | QMd k => md_path_prefix ++ b58 k
+  end.
+
+(* the store queries one loop iteration makes: the metadata lookup, when the value key
+   decrypts and splits *)
+Definition find_one_queries (P : prims) (mh evk : bytes) : res (list query) :=
+  match decrypt_value_key P evk mh with
+  | Panic c => Panic c
+  | Err _ => Ok []
+  | Ok vk =>
+    match split_value_key vk with
+    | Panic c => Panic c
+    | Err _ => Ok []
+    | Ok _ => h <- sha256_dest P vk [] ;; Ok [QMd h]
+    end
+  end.
+
+Fixpoint queries_loop (f : bytes -> res (list query)) (evks : list bytes) : res (list query) :=
+  match evks with
+  | [] => Ok []
+  | e :: r => a <- f e ;; b <- queries_loop f r ;; Ok (a ++ b)
+  end.
+
+(* every query FindAsync sends to the store, in order *)
+Definition find_queries (P : prims) (st : store) (mh : bytes) : res (list query) :=
+  smh <- second_multihash P mh ;;
+  match s_find_mh st smh with
+  | Ok groups => qs <- queries_loop (find_one_queries P mh) (concat groups) ;; Ok (QMh smh :: qs)
+  | Err _ => Ok [QMh smh]
+  | Panic c => Panic c
+  end.
+
+(* family hfind: the find workflow through the real HTTP dhstore client against a scripted
+   server; compared: the results and the request paths the server received *)
+Record hfind_case := HFC {
+  hf_table : table;
+  hf_mht : list (bytes * res (list (list bytes)));
+  hf_mdt : list (bytes * res bytes);
+  hf_known : option (list (bytes * N));
+  hf_mh : bytes;
+  hf_obs : res (list presult);
+  hf_paths : list bytes
+}.
+
+Definition hfind_case_ok (c : hfind_case) : bool :=
+  let P := table_prims (hf_table c) in
+  let st := table_store (hf_mht c) (hf_mdt c) in
+  res_matches (list_eqb presult_eqb) (find P st (known_of (hf_known c)) (hf_mh c)) (hf_obs c) &&
+  match find_queries P st (hf_mh c) with
+  | Ok qs => list_eqb bytes_eqb (map request_path qs) (hf_paths c)
+  | _ => false
+  end.
